@@ -3,7 +3,7 @@ CONSTANTS
   Replicas = {a, b}
   Writers = {a, b}
   MaxC = 4
-  MaxSnap = 1
+  MaxSnap = 0
   MaxBatch = 1
   AllowDup = FALSE
   AllowNoPath = FALSE
